@@ -310,10 +310,21 @@ def percpu_leg(res, rng):
                 self.r0 = 2
                 self.exit()
             ns["program"] = program
-            e = type("VfPC", (XDP,), ns)()
+            cls = type("VfPC", (XDP,), ns)
+            # the class's map descriptor is shared by its instances: a
+            # second instance with another sub-program set must not disturb
+            # the first one's layout
+            Sub = type("VfPCSub", (SubProgram,),
+                       {"sv": pm.globalVar("Q"),
+                        "program": lambda self: None})
+            nsub = rng.choice([0, 0, 2, 3])
+            e = cls(subprograms=[Sub() for _ in range(nsub)])
             ld = prog.Loaded(e, sess)
             try:
                 ld.load()
+                if nsub:
+                    other = cls()
+                    res.count("percpu_second_instance")
             except OSError as ex:
                 res.count("percpu_load_failed")
                 res.sample(dict(percpu_load_failed=fmts,
